@@ -1428,6 +1428,15 @@ class Analysis:
         for k in mem:
             v = mem[k]
             va, vb = a.mem.get(k), b.mem.get(k)
+            if v[0] == "I" and (va is None) != (vb is None) and k[1]:
+                # a field that one edge holds only inside a whole value (`self` as it was passed in): read it out of that value
+                try:
+                    if va is None:
+                        va = self.read_cell(a, k[0], k[1], {"k": "prim", "n": "usize"})
+                    else:
+                        vb = self.read_cell(b, k[0], k[1], {"k": "prim", "n": "usize"})
+                except Exception:
+                    pass
             if va is None or vb is None or va == vb or v[0] != "I" or va[0] != "I" or vb[0] != "I":
                 continue
             if len(v[1].t) != 1:
